@@ -723,15 +723,20 @@ class Translator:
         return v.bv.as_long()
 
     def _bytes_value(self, p, cnt, mx, big):
-        """sum of bytes p[0..cnt) as an unsigned integer of mx*8 bits, cnt <= mx"""
+        """bytes p[0..cnt) as an unsigned integer of mx*8 bits, cnt <= mx.  Iterates over POSITIONS (literal offsets from p),
+        so that with a literal pointer offset every array read is at a literal index."""
         W = mx * 8
         acc = z3.BitVecVal(0, W)
         c64 = to_index(cnt)
-        for j in range(mx):
-            jj = z3.BitVecVal(j, 64)
-            # j-th least significant byte
-            idx = (c64 - 1 - jj) if big else jj
-            b = self.ctx.elem(p, idx, self.old).bv
-            term = z3.ZeroExt(W - 8, b) << (8 * j) if W > 8 else b
-            acc = acc | z3.If(z3.ULT(jj, c64), term, z3.BitVecVal(0, W))
+        cW = z3.ZeroExt(W - 64, c64) if W > 64 else z3.Extract(W - 1, 0, c64)
+        for idx in range(mx):
+            ii = z3.BitVecVal(idx, 64)
+            b = self.ctx.elem(p, ii, self.old).bv
+            zb = z3.ZeroExt(W - 8, b) if W > 8 else b
+            if big:
+                sh = (cW - 1 - idx) * 8        # byte idx has weight 256**(cnt-1-idx)
+                term = zb << sh
+            else:
+                term = zb << (8 * idx)
+            acc = acc | z3.If(z3.ULT(ii, c64), term, z3.BitVecVal(0, W))
         return TV(acc, False)
